@@ -196,7 +196,7 @@ fn opt_t(t: Option<Type>) -> String {
 fn run_typeops(a: &Ty, b: &Ty) -> Outcome {
     let mut out = Outcome::default();
     let r = guarded(|| {
-        let mut direct = Vec::new();
+        let mut direct: Vec<(String, String)> = Vec::new();
         let mut canon = Vec::new();
         let mut raw = Vec::new();
         let mut ev = 0u64;
@@ -211,6 +211,10 @@ fn run_typeops(a: &Ty, b: &Ty) -> Outcome {
         let a3 = a.build();
         let b3 = b.build();
         ev += 5;
+        // cross questions first, and once more at the very end: an answer must not change within a
+        // run (a memo keyed by something that forgets part of the question gives the later of two
+        // different questions the earlier one's answer)
+        let pre = (a1.matches(&b1), b1.matches(&a1), a1 == b1, b1.matches(&b3), a1.conjoin(&b1) == b1.conjoin(&a1));
         // structurally equal types must compare equal, match each other and be found in a set
         let ca = ctype(&a1);
         if ctype(&a2) != ca || ctype(&a3) != ca {
@@ -282,12 +286,24 @@ fn run_typeops(a: &Ty, b: &Ty) -> Outcome {
             );
         }
         ev += 40;
+        let post = (a1.matches(&b1), b1.matches(&a1), a1 == b1, b1.matches(&b3), a1.conjoin(&b1) == b1.conjoin(&a1));
+        if pre != post {
+            direct.push(("answer-changed-within-run".into(), format!("{a_src} vs {b_src}: (a<:b, b<:a, a==b, b<:b, a&b==b&a) was {pre:?} at the start of the run and {post:?} at its end")));
+        }
+        if !pre.3 {
+            direct.push(("matches-irreflexive".into(), format!("{b_src}: equal types do not match each other")));
+        }
         raw.push(format!("a={a1} b={b1} a|b={ab}"));
         (canon.join(";"), raw.join(";"), direct, ev)
     });
     match r {
         Ok((c, raw, d, ev)) => {
-            out.canon = c;
+            // what a single run finds wrong is part of its record: a finding that appears under some
+            // seeds or after some history only is then a difference like any other
+            let mut classes: Vec<&str> = d.iter().map(|x| x.0.as_str()).collect();
+            classes.sort();
+            classes.dedup();
+            out.canon = format!("{c};FOUND={}", classes.join(","));
             out.raw = raw;
             out.direct = d;
             out.events = ev;
@@ -344,7 +360,10 @@ fn run_roundtrip(t: &Ty) -> Outcome {
     });
     match r {
         Ok((want, printed, direct)) => {
-            out.canon = want;
+            let mut classes: Vec<&str> = direct.iter().map(|x| x.0.as_str()).collect();
+            classes.sort();
+            classes.dedup();
+            out.canon = format!("{want};FOUND={}", classes.join(","));
             out.raw = printed.join(" ;; ");
             out.printed = printed.first().cloned();
             out.direct = direct;
@@ -563,6 +582,17 @@ pub fn plan(property: &str, tier: &str, seed: u64) -> Plan {
                 if i % rstride == 0 {
                     let partner = rel[rng.below(rel.len())].clone();
                     subjects.push(Subject::TypeOps { a: t.clone(), b: partner });
+                }
+            }
+            // hash twins: same shape, other atoms (what a lossy-keyed memo confuses), both ways round
+            let twin_stride = if thorough { 1 } else { 3 };
+            for (i, t) in pool.iter().chain(rel.iter()).filter(|t| t.has_union_or_struct()).enumerate() {
+                if i % twin_stride == 0 {
+                    let tw = t.twin();
+                    if tw != *t {
+                        subjects.push(Subject::TypeOps { a: t.clone(), b: tw.clone() });
+                        subjects.push(Subject::TypeOps { a: tw, b: t.clone() });
+                    }
                 }
             }
             if thorough {
@@ -822,6 +852,7 @@ pub fn worker(input: &Value) -> Value {
                 violations.push(json!({
                     "class": class, "detail": detail, "subject_id": subject.id(),
                     "runs": [scenario_json(boot_seed, subject, *ks, &prefixes[k])],
+                    "at": {"idx": idx, "k": [k, k], "repeat": [false, false], "shard": shard, "shards": shards, "canons": [o.canon, o.canon]},
                 }));
                 break;
             }
